@@ -4,7 +4,10 @@ use serde_json::json;
 
 pub fn write_part(out: Option<&str>) {
     let v = ctx(|c| {
-        let held = c.obligations.iter().filter(|o| o.verdict == "held" || o.verdict == "unsat" || o.verdict == "sat").count();
+        let real: Vec<_> = c.obligations.iter().filter(|o| o.kind != "TWIN").collect();
+        let held = real.iter().filter(|o| o.verdict == "held" || o.verdict == "unsat" || o.verdict == "sat").count();
+        let twins = c.obligations.len() - real.len();
+        let distinct: std::collections::BTreeSet<&str> = real.iter().filter(|o| o.bytes > 0).map(|o| o.name.as_str()).collect();
         let violated = c.obligations.iter().filter(|o| o.verdict == "violated").count();
         let inconcl = c.obligations.iter().filter(|o| o.verdict == "inconclusive").count();
         let mut by_kind = std::collections::BTreeMap::new();
@@ -28,7 +31,9 @@ pub fn write_part(out: Option<&str>) {
             "paths": c.paths,
             "decisions": c.decisions,
             "hash_transcripts": c.hashes,
-            "n_obligations": c.obligations.len(),
+            "n_obligations": real.len(),
+            "doc_twin_queries": twins,
+            "distinct_nontrivial": distinct.len(),
             "held": held,
             "violated": violated,
             "inconclusive_obligations": inconcl,
